@@ -298,7 +298,7 @@ def run(ctx, rep):
         okc = okc and len(cl) == 1 and render(cl[0]['body']) == "c != '\\n'" or (okc and len(cl) == 1 and "'\\n'" in repr(render(cl[0]['body'])))
     rep.ob(okc, 'R08.7', fnp, 'comment arm', '`//` skips to (not past) the line feed and restarts; a single `/` is Slash', loc)
     # cross-check with MIR: number of Tokenizer::bump call sites in next()
-    nb = sum(1 for b, t in lexnext.calls() if callee_name(t) == "lexer::Tokenizer::<'a>::bump")
+    nb = sum(1 for b, t in lexnext.own_calls() if callee_name(t) == "lexer::Tokenizer::<'a>::bump")
     sb = len(find_all(nxt['body'], lambda n: n.get('k') == 'mcall' and n['method'] == 'bump' and path_of(n['recv']) == ['self']))
     if nb != sb:
         raise CheckerError('cross-check failed: %d bump() sites in the syntax tree of next(), %d in MIR' % (sb, nb))
